@@ -67,16 +67,16 @@ type Options struct {
 }
 
 type Engine struct {
-	Ctx      context.Context
-	Opt      Options
-	Cfg      *headers.Config
-	Insts    []*Inst
-	Trace    Trace
-	Findings []Finding
-	Stats    map[string]int
-	Probes   []Hash // never-accepted hashes to look up
-	Crash    CrashStats
-	opIdx    int
+	Ctx       context.Context
+	Opt       Options
+	Cfg       *headers.Config
+	Insts     []*Inst
+	Trace     Trace
+	Findings  []Finding
+	Stats     map[string]int
+	Probes    []Hash // never-accepted hashes to look up
+	Crash     CrashStats
+	opIdx     int
 	lastClass string
 }
 
@@ -584,12 +584,16 @@ func (e *Engine) checkState(in *Inst, s *Snap, after string) {
 		if s.HashErr[h] != "" || s.Hashes[h] != want {
 			e.fail("C01", "hash-at-height-is-tip-ancestry", fmt.Sprintf("hash-at-height-wrong/%s", errOrWrong(s.HashErr[h])),
 				fmt.Sprintf("after %s: Hash(%d)=%s%s, ancestry of tip has %s", after, h, s.Hashes[h], s.HashErr[h], want))
+			e.fail("C09", "height-queries-return-the-best-chain-header", fmt.Sprintf("hash-at-height-wrong/%s/%s", errOrWrong(s.HashErr[h]), memOrStore(m, chain[h])),
+				fmt.Sprintf("after %s: Hash(%d)=%s%s, best chain has %s", after, h, s.Hashes[h], s.HashErr[h], want))
 			in.Tainted = true
 			return
 		}
 		if s.HdrErr[h] != "" || s.HdrHash[h] != want {
 			e.fail("C01", "header-at-height-is-tip-ancestry", fmt.Sprintf("header-at-height-wrong/%s", errOrWrong(s.HdrErr[h])),
 				fmt.Sprintf("after %s: Header(%d) hashes to %s%s, ancestry of tip has %s", after, h, s.HdrHash[h], s.HdrErr[h], want))
+			e.fail("C09", "height-queries-return-the-best-chain-header", fmt.Sprintf("header-at-height-wrong/%s/%s", errOrWrong(s.HdrErr[h]), memOrStore(m, chain[h])),
+				fmt.Sprintf("after %s: Header(%d) hashes to %s%s, best chain has %s", after, h, s.HdrHash[h], s.HdrErr[h], want))
 			in.Tainted = true
 			return
 		}
@@ -977,4 +981,65 @@ func (e *Engine) drainQuiet(in *Inst, op string) {
 			e.fail("C07", "only-best-chain-entries-announced", "announcement-by-"+op, fmt.Sprintf("%d headers announced by %s", n, op))
 		}
 	}
+}
+
+// BulkExtend appends a straight run of headers to the best tip of the newest instance without
+// per-header snapshots (used to build long base chains); one snapshot is taken at the end.
+func (e *Engine) BulkExtend(hs []*wire.BlockHeader) bool {
+	for _, hd := range hs {
+		e.Trace.Ops = append(e.Trace.Ops, Op{K: "submit", Hdr: HdrHex(hd), Note: "base"})
+	}
+	e.opIdx = len(e.Trace.Ops) - 1
+	for _, in := range e.Insts {
+		if in.Tainted {
+			continue
+		}
+		for _, hd := range hs {
+			var err error
+			pan := safe(func() { err = in.Repo.ProcessHeader(e.Ctx, hd) })
+			if pan != "" || err != nil {
+				e.fail("C08", "reference-verdict", "verdict/got="+errKind(pan, err)+"/want=accepted", fmt.Sprintf("base header refused: %v %v", pan, err))
+				e.fail("C01", "tip-is-max-work", "base-header-refused", fmt.Sprintf("%v %v", pan, err))
+				in.Tainted = true
+				return false
+			}
+			n := in.M.Accept(hd)
+			if n == nil {
+				in.Tainted = true
+				return false
+			}
+			e.assignBranch(in, n)
+			if n.Cum.Cmp(in.M.Tip.Cum) > 0 {
+				in.M.Tip = n
+			}
+			e.Stats["verdict_ok"]++
+		}
+		// the automatic clean every 10000 heights may have run
+		if in.M.Tip.Height >= 10000 {
+			e.consolidateBranches(in)
+			e.markPrunedBest(in, prodPruneDepth)
+		}
+		in.Snap = e.snap(in)
+		e.checkState(in, in.Snap, "bulk-extend")
+		for _, sub := range in.Subs {
+			sub.local = append([]Hash(nil), in.Snap.Hashes...)
+			for len(sub.ch) > 0 {
+				<-sub.ch
+			}
+		}
+	}
+	return !e.Failed()
+}
+
+// SparseHeights is the height selector used for long chains: everything near the tip and near
+// the 1000-header file boundaries plus a regular sample.
+func SparseHeights(h, tip int) bool {
+	return tip <= 300 || h >= tip-14 || h%1000 == 0 || h%1000 == 999 || h%457 == 0 || h < 2
+}
+
+func memOrStore(m *Model, n *Node) string {
+	if m.MaybePruned[n.Hash] {
+		return "possibly-from-storage"
+	}
+	return "in-memory"
 }
